@@ -7,6 +7,7 @@ import (
 	"io"
 
 	"seehuhn.de/go/pdf"
+	"seehuhn.de/go/xmp"
 	"seehuhn.de/go/pdf/verif/internal/gen"
 	"seehuhn.de/go/pdf/verif/internal/vt"
 )
@@ -204,6 +205,20 @@ func verifyMeta(p *Program, res *Result, m *pdf.MetaInfo) error {
 	}
 	if m.Catalog.Pages != res.PagesRef {
 		return fmt.Errorf("Catalog.Pages: wrote %s, read %s", res.PagesRef, m.Catalog.Pages)
+	}
+	if p.MetaTitle != "" {
+		if m.Catalog.Metadata == nil || m.Catalog.Metadata.Data == nil {
+			return errors.New("Catalog.Metadata: written but not read back")
+		}
+		var dc xmp.DublinCore
+		if err := m.Catalog.Metadata.Data.Get(&dc); err != nil {
+			return fmt.Errorf("Catalog.Metadata: cannot read Dublin Core properties: %v", err)
+		}
+		if got := dc.Title.Default.String(); got != p.MetaTitle {
+			return fmt.Errorf("Catalog.Metadata: wrote dc:title %q, read %q", p.MetaTitle, got)
+		}
+	} else if m.Catalog.Metadata != nil {
+		return errors.New("Catalog.Metadata: none written, but read one")
 	}
 	if string(m.Catalog.PageLayout) != p.PageLayout || string(m.Catalog.PageMode) != p.PageMode {
 		return fmt.Errorf("Catalog: wrote PageLayout %q PageMode %q, read %q %q", p.PageLayout, p.PageMode, m.Catalog.PageLayout, m.Catalog.PageMode)
